@@ -497,6 +497,26 @@ c11("c11_edit_add_new", 15, "Z = 1", "add line 15", "11.0")
 c11("c11_edit_delete", 20, "", "delete line 20", "11.0")
 c11("c11_edit_data_line", 5, "DATA 44", "replace the DATA line", "44.0")
 
+S("c11_edit_after_clean_finish", ["C11"], "quick",
+  "after a run that finished normally (nothing suspended: no breakpoint, no frames, no open loops) an edit still forgets the defined functions and rewinds the DATA cursor",
+  "function FNA registered and data cursor advanced, but no breakpoint / frames / loops; edit: line 20 := [Z = 1]; probe READ",
+  DIRTY_PROGRAM + f"""
+    i.program.run_from_first_numbered_line();
+    set_num(&mut i, "X", 5.0);
+    pa::add_function(&mut i.program, "FNA", "Q", 10, 2);
+    let d0 = i.program.next_data_element();
+    core::mem::forget(d0);
+    i.program.set_and_goto_immediate_line(vec![]);
+    i.state = InterpreterState::Idle;
+    {L(20, "Z = 1")}
+    assert!(pa::functions_len(&i.program) == 0, "c11: an edit forgets defined functions even when nothing was suspended");
+    assert!(!pa::data_iterator_started(&i.program), "c11: an edit rewinds the DATA cursor even when nothing was suspended");
+    assert!({IMM("READ D")}.is_none());
+    assert!(num(&i, "D") == 11.0, "c11: READ restarts from the first DATA item after an edit");
+    assert!(num(&i, "X") == 5.0, "c11: variables survive an edit");
+    kani::cover!(true, "reached_end");
+""", unwind=16, timeout=900, mem=6000, cost=100)
+
 S("c11_goto_deleted_line_is_error", ["C11", "C01"], "quick",
   "after deleting a line, nothing dereferences it: GOTO to it is UNDEF'D STATEMENT (no panic in the line lookup)",
   "lines 0,10; delete 0; immediate GOTO 0",
@@ -629,6 +649,22 @@ S("c08_input_suspends", ["C08", "C09", "C01"], "quick",
     assert!(num(&i, "A") == 1.0 && !has_var(&i, "B") && !has_var(&i, "X"), "c08: nothing beyond the statements before INPUT ran");
     assert!(out_len(&i) == 0, "c08: suspension produces no output");
     assert!(pa::stack_len(&i.program) == 2 && pa::loop_len(&i.program) == 1);
+    kani::cover!(true, "reached_end");
+""", unwind=16)
+
+S("c08_second_input_on_a_line", ["C08", "C01"], "quick",
+  "two INPUT statements on one line: the second one suspends at ITS token (not at the first INPUT), with the first variable's value kept",
+  "10 INPUT A : INPUT X : B = 2 ; A already answered; cursor at the second INPUT",
+  f"""
+    let mut i = Interpreter::default();
+    {L(10, "INPUT A : INPUT X : B = 2")}
+    i.program.run_from_first_numbered_line();
+    set_num(&mut i, "A", 4.0);
+    resume_at(&mut i, 10, {idx("INPUT A :")});
+    assert!(turn(&mut i).is_none());   // INPUT X: no reply pending -> suspend
+    assert!(st(&i) == ST_AWAITING, "c08: INPUT awaits input");
+    assert!(pa::at(&i.program, 10, {idx("INPUT A :")}), "c08: the cursor is at the INPUT token being executed, not at an earlier INPUT on the line");
+    assert!(num(&i, "A") == 4.0 && !has_var(&i, "X") && !has_var(&i, "B"));
     kani::cover!(true, "reached_end");
 """, unwind=16)
 
@@ -1127,11 +1163,24 @@ S("c18_rnd_expression_negative", ["C18", "C01"], "thorough",
     core::mem::forget(rn);
     kani::cover!(true, "reached_end");
 """, unwind=16, timeout=900, mem=6000, cost=60)
+import re as _re
+_ANY = _re.compile(r"(?:: (f64|u64|usize|i64|u32|u16|u8|bool) = kani::any\(\))|(any_small\(\))|(pick_str\(kani::any\(\)\))|(pick_num\(kani::any\(\)\))")
+_SIZE = {"f64": 8, "u64": 8, "usize": 8, "i64": 8, "u32": 4, "u16": 2, "u8": 1, "bool": 1}
+
+
+def any_sizes(body):
+    """sizes of the kani::any() calls in textual (= execution) order, for the zero-valued fallback replay"""
+    sizes = []
+    for m in _ANY.finditer(body):
+        sizes.append(_SIZE[m.group(1)] if m.group(1) else 1)
+    return sizes
+
+
 def emit(s):
     out = []
     out.append('// @verif prop=%s tier=%s timeout=%d arms=1 mem=%d cost=%d clause="%s"%s' % (
         ",".join(s["props"]), s["tier"], s["timeout"], s["mem"], s["cost"], s["clause"].replace('"', "'"),
-        " cbmc=--no-propagation" if os.environ.get("NOPROP") == "1" else ""))
+        (" cbmc=--no-propagation" if os.environ.get("NOPROP") == "1" else "") + " anysizes=" + (",".join(str(x) for x in any_sizes(s["body"])) or "0")))
     out.append('// @verif sample="%s" bounds="%s"' % (s["sample"].replace('"', "'"), (s["bounds"] or "program and script as in the sample; unwind %d" % s["unwind"]).replace('"', "'")))
     out.append("#[kani::proof]")
     out.append("#[kani::unwind(%d)]" % s["unwind"])
